@@ -155,6 +155,9 @@ fn panic_class(msg: &str) -> String {
     if first.starts_with("register type ") {
         return "register type does not match expected type".into();
     }
+    if first.starts_with("SourceType ") && first.contains(" cannot be converted") {
+        return "SourceType cannot be converted to BytecodeType".into();
+    }
     let mut c = msg_class(first);
     for cut in [" in function ", " for function "] {
         if let Some(p) = c.find(cut) {
